@@ -232,6 +232,10 @@ Proof.
     destruct (Pos.eq_dec t t0) as [->|Hne].
     + unfold TInv. rewrite sget_sset_same. exact I.
     + apply (tinv_extend pre sp _ t); [now apply sget_sset_other|exact I|intros; discriminate|apply Hinv].
+  - (* LWRetF *) destruct (sget sp t0) eqn:E; try discriminate. inversion Hstep; subst sp'. clear Hstep.
+    destruct (Pos.eq_dec t t0) as [->|Hne].
+    + unfold TInv. rewrite sget_sset_same. exact I.
+    + apply (tinv_extend pre sp _ t); [now apply sget_sset_other|exact I|intros; discriminate|apply Hinv].
   - (* LInvR *) destruct (sget sp t0) eqn:E; try discriminate. inversion Hstep; subst sp'. clear Hstep.
     destruct (Pos.eq_dec t t0) as [->|Hne].
     + unfold TInv. rewrite sget_sset_same. exists pre, []. split; [reflexivity|apply no_inv_nil].
